@@ -92,6 +92,10 @@ def run_one(pid, spec, tier='quick'):
             ok = r.returncode == 1 and (not spec.get('rule') or any(x.startswith(spec['rule']) for x in rules))
             if ok and spec.get('mentions'):
                 ok = any(spec['mentions'] in (f['message'] + ' ' + f['function'] + ' ' + str(f.get('witness'))) for f in new)
+        elif want == 'no-violation':
+            # a behaviour-preserving refactoring: the check may hold or say ANALYSIS-BROKEN (exit 2), it must never report a violation
+            ok = r.returncode in (0, 2) and 'VIOLATION' not in out
+            res['outcome'] = {0: 'hold', 2: 'analysis-broken'}.get(r.returncode, 'exit %s' % r.returncode)
         else:
             ok = r.returncode == 0
         res['status'] = 'ok' if ok else 'FAILED'
